@@ -286,7 +286,7 @@ func ZZVerifC09Push() {
 	bounds[mcrt.Time] = 1
 	bounds[mcrt.Cancel] = 1
 	total := 2
-	budget := 100 * gotime.Second
+	budget := 200 * gotime.Second
 	if thorough {
 		bounds[mcrt.Fault] = 2
 		bounds[mcrt.Preempt] = 2
